@@ -1,5 +1,6 @@
 import ParryModel.C04.Lemmas
 import ParryModel.C04.ModelGjk
+import ParryModel.C04.ModelComposite
 /-!
 # Lemmas for `Theorems3.lean`: loop invariant of `gjk::minkowski_ray_cast` (abstract simplex).
 -/
@@ -485,5 +486,91 @@ theorem minkowskiRayCast_near {Sx : Type} (hs : LawfulSqrt sq) (S : V3 K → Pro
     apply gjkLoop_spec2 sq hs S hconv ops supp hin big dim Pts spec ray.o _ _ maxToi hlen 100
     · exact ⟨by simp only [lin, mul_zero, add_zero], hp.1⟩
     · exact hp.2
+
+end C04
+
+namespace C04
+open Model
+variable {K : Type} [Field K] [LinearOrder K] [IsStrictOrderedRing K] (sq : K → K)
+
+/-! ## one axis of the heightfield grid walk -/
+
+/-- the boundary time of one axis as computed by `nextCell`: `(toi, forward)` before the clamp at 0 -/
+def axisToi (big lo hi o d : K) : K × Bool :=
+  if 0 < d then ((hi - o) / d, true) else if d < 0 then ((lo - o) / d, false) else (big, false)
+
+/-- **one axis**: the coordinate is in `[lo, hi]` at parameter `t ≥ 0`.  Then the clamped boundary time `T = max(toi, 0)` is
+`≥ t` (or the coordinate never leaves the slab when `d = 0`), the coordinate stays in `[lo, hi]` on `[t, T]`, and at `T` it
+sits on the boundary the walk steps across. -/
+theorem axisToi_spec (big lo hi o d t : K) (ht : 0 ≤ t) (hm : lo ≤ o + d * t ∧ o + d * t ≤ hi) :
+    (∀ s, t ≤ s → s ≤ max (axisToi big lo hi o d).1 0 → lo ≤ o + d * s ∧ o + d * s ≤ hi) ∧
+    (d ≠ 0 → t ≤ max (axisToi big lo hi o d).1 0) ∧
+    (0 < d → (axisToi big lo hi o d).2 = true ∧ o + d * max (axisToi big lo hi o d).1 0 = hi) ∧
+    (d < 0 → (axisToi big lo hi o d).2 = false ∧ o + d * max (axisToi big lo hi o d).1 0 = lo) ∧
+    (d = 0 → (axisToi big lo hi o d).2 = false ∧ big ≤ max (axisToi big lo hi o d).1 0) := by
+  rcases lt_trichotomy d 0 with hd | hd | hd
+  · have hn : ¬ 0 < d := not_lt.2 hd.le
+    have e : axisToi big lo hi o d = ((lo - o) / d, false) := by simp only [axisToi, hn, hd, if_false, if_true]
+    rw [e]; dsimp only
+    have hτ : t ≤ (lo - o) / d := by
+      rw [le_div_iff_of_neg hd]; linarith [hm.1]
+    have hmax : max ((lo - o) / d) 0 = (lo - o) / d := max_eq_left (le_trans ht hτ)
+    rw [hmax]
+    have hmul : d * ((lo - o) / d) = lo - o := mul_div_cancel₀ _ (ne_of_lt hd)
+    have hval : o + d * ((lo - o) / d) = lo := by rw [hmul]; ring
+    refine ⟨fun s h1 h2 => ⟨?_, ?_⟩, fun _ => hτ, fun h => absurd h hn, fun _ => ⟨rfl, hval⟩, fun h => absurd h (ne_of_lt hd)⟩
+    · have : d * ((lo - o) / d) ≤ d * s := mul_le_mul_of_nonpos_left h2 hd.le
+      linarith
+    · have : d * s ≤ d * t := mul_le_mul_of_nonpos_left h1 hd.le
+      linarith [hm.2]
+  · subst hd
+    have e : axisToi big lo hi o 0 = (big, false) := by simp only [axisToi, lt_irrefl, if_false]
+    rw [e]; dsimp only
+    simp only [zero_mul, add_zero] at hm ⊢
+    refine ⟨fun _ _ _ => hm, fun h => absurd rfl h, fun h => absurd h (lt_irrefl _), fun h => absurd h (lt_irrefl _),
+      fun _ => ⟨trivial, le_max_left _ _⟩⟩
+  · have hn : ¬ d < 0 := not_lt.2 hd.le
+    have e : axisToi big lo hi o d = ((hi - o) / d, true) := by simp only [axisToi, hd, if_true]
+    rw [e]; dsimp only
+    have hτ : t ≤ (hi - o) / d := by
+      rw [le_div_iff₀ hd]; linarith [hm.2]
+    have hmax : max ((hi - o) / d) 0 = (hi - o) / d := max_eq_left (le_trans ht hτ)
+    rw [hmax]
+    have hmul : d * ((hi - o) / d) = hi - o := mul_div_cancel₀ _ (ne_of_gt hd)
+    have hval : o + d * ((hi - o) / d) = hi := by rw [hmul]; ring
+    refine ⟨fun s h1 h2 => ⟨?_, ?_⟩, fun _ => hτ, fun _ => ⟨rfl, hval⟩, fun h => absurd h hn, fun h => absurd h (ne_of_gt hd)⟩
+    · have : d * t ≤ d * s := mul_le_mul_of_nonneg_left h1 hd.le
+      linarith [hm.1]
+    · have : d * s ≤ d * ((hi - o) / d) := mul_le_mul_of_nonneg_left h2 hd.le
+      linarith
+
+/-- the column (in `x`, `z`) of cell `(i, j)` -/
+def ColMem (h : HeightField3 K) (i j : Nat) (p : V3 K) : Prop :=
+  letI := fieldNum K sq
+  (h.xAt j ≤ p.x ∧ p.x ≤ h.xAt (j + 1)) ∧ (h.zAt i ≤ p.z ∧ p.z ≤ h.zAt (i + 1))
+
+/-- `nextCell` written with `axisToi` and `max` -/
+def nextCellA (big : K) (h : HeightField3 K) (ray : Ray3 K) (maxT : K) (ci cj : Nat) : Option (Nat × Nat) :=
+  letI := fieldNum K sq
+  let tx := axisToi big (h.xAt cj) (h.xAt (cj + 1)) ray.o.x ray.d.x
+  let tz := axisToi big (h.zAt ci) (h.zAt (ci + 1)) ray.o.z ray.d.z
+  let toiX := max tx.1 0
+  let toiZ := max tz.1 0
+  if maxT < toiX ∧ maxT < toiZ then none else
+  let next : Option (Nat × Nat) :=
+    if 0 ≤ toiX ∧ toiX < toiZ then
+      (if tx.2 then some (ci, cj + 1) else if 0 < cj then some (ci, cj - 1) else none)
+    else if 0 ≤ toiZ then
+      (if tz.2 then some (ci + 1, cj) else if 0 < ci then some (ci - 1, cj) else none)
+    else none
+  match next with
+  | none => none
+  | some (ni, nj) => if h.nr - 1 ≤ ni ∨ h.nc - 1 ≤ nj then none else some (ni, nj)
+
+theorem nextCell_eq (big : K) (h : HeightField3 K) (ray : Ray3 K) (maxT : K) (ci cj : Nat) :
+    letI := fieldNum K sq
+    h.nextCell big ray maxT ci cj = nextCellA sq big h ray maxT ci cj := by
+  simp only [HeightField3.nextCell, nextCellA, axisToi, fieldNum_nmax]
+  rfl
 
 end C04
